@@ -2,7 +2,7 @@
    Theorems about the tick program model of Dfir/ModelTick.v (the generated tick closure and
    Dfir::run_tick / run_available_sync); proofs in Dfir/PTick.v. *)
 From Coq Require Import List NArith Bool.
-From HV Require Import Dfir.Model Dfir.ModelTick Dfir.POps Dfir.PTick.
+From HV Require Import Dfir.Model Dfir.ModelTick Dfir.POps Dfir.PTick Dfir.PFrame.
 Import ListNotations.
 Open Scope N_scope.
 
@@ -40,6 +40,26 @@ Proof.
 Qed.
 Print Assumptions C24_double_buffer.
 
+(* end to end, for a tick program without loop blocks: h is a tick-level defer_tick handoff (in the
+   swap list), P the one block that sends to it, C the one block that receives it; every block
+   after P leaves h's `buf` alone and every block before C leaves h's `back` alone (C itself only
+   drains `back`).  Then what C's operators read from h in tick t+1 (after any blocks A2, with
+   any new external input ext') is exactly the buffer P's block left in tick t, and P's block
+   had started from an empty buffer: deferred items land exactly one tick later. *)
+Theorem C24_delivery : forall p ext ext' w h A1 P B1 A2 C B2 k,
+  p_body p = map IRun (A1 ++ P :: B1) ->
+  A1 ++ P :: B1 = A2 ++ C :: B2 ->
+  NoDup (p_swaps p) -> In h (p_swaps p) ->
+  Forall (fun sg => buf_free sg h) B1 ->
+  Forall (fun sg => back_free sg h) A2 ->
+  NoDup (map fst (sg_recv C)) -> In (h, true) (sg_recv C) ->
+  In (h, k) (sg_send P) -> k <> SExit -> NoDup (map fst (sg_send P)) ->
+  let w' := fst (tick_closure p ext w) in
+  reads_at ext' A2 C h w' = get h (w_buf (run_sg ext P (run_sgs ext A1 w))) /\
+  get h (w_buf (prep_send P (run_sgs ext A1 w))) = [].
+Proof. exact defer_delivery. Qed.
+Print Assumptions C24_delivery.
+
 (* running until idle: the wake flag after a tick is set iff it was set before or some buffer of
    the schedule list (the non-lazy deferred handoffs; a lazy one is never in it) is non-empty at
    the end of the tick; run_available_sync runs another tick exactly in that case; a program
@@ -47,11 +67,11 @@ Print Assumptions C24_double_buffer.
 Theorem C24_run_available :
   (forall p ext w, w_wake (fst (tick_closure p ext w)) =
                    w_wake w || existsb (check_b (body_world p ext w)) (p_sched p)) /\
-  (forall f p ext w n,
-     run_avail_loop (S f) p ext w n =
+  (forall f p wakes ext w n,
+     run_avail_loop (S f) p wakes ext w n =
      let w1 := fst (run_tick p ext w) in
-     if existsb (check_b (body_world p ext (set_wake w false))) (p_sched p)
-     then run_avail_loop f p [] (set_wake w1 false) (n + 1)
+     if existsb (check_b (body_world p ext (set_wake w false))) (p_sched p) || hd false wakes
+     then run_avail_loop f p (tl wakes) [] (set_wake w1 false) (n + 1)
      else (w1, n + 1)) /\
   (forall p ext w, p_sched p = [] -> snd (run_available p ext w) = 1).
 Proof.
@@ -79,7 +99,7 @@ Print Assumptions C24_state_lifetimes.
    source -> union -> sink, union -> defer -> union; three ticks *)
 Example C24_example :
   let sg := {| sg_recv := [(0, true)]; sg_send := [(0, SClear)];
-               sg_nodes := [ {| n_id := 0; n_kind := NSource 0; n_ins := []; n_outs := [1] |};
+               sg_slots := []; sg_nodes := [ {| n_id := 0; n_kind := NSource 0; n_ins := []; n_outs := [1] |};
                              {| n_id := 1; n_kind := NOp (op_union 2); n_ins := [1; 0]; n_outs := [2] |};
                              {| n_id := 2; n_kind := NOp (op_tee 2); n_ins := [2]; n_outs := [3; 0] |};
                              {| n_id := 3; n_kind := NSink 0; n_ins := [3]; n_outs := [] |} ] |} in
